@@ -62,12 +62,21 @@ Definition ca_must_keep (a : cacand) : bool :=
   negb (ca_kind a =? 0) ||
   (negb (existsb (fun x => negb (snd x)) (ca_cas a)) && existsb (fun x => snd x) (ca_cas a)).
 
+(* the trust store a reload must leave in force, from the reload's OWN CA / blocklist inputs and the store before it:
+   the new bundle with the new blocklist if it is readable (and not all expired), the previous store otherwise -
+   whatever happened to the certificate half of the same reload *)
+Definition expected_pool (prev : pool) (a : cacand) : pool := if ca_must_keep a then prev else pool_of a.
+
 Definition step_ok (peers : list (N * N)) (o : obs) (a : cacand) (csch cach : bool) (o' : obs) : bool :=
   (* accepted: identity unchanged; refused: the previous certificates stay in use *)
   (if csch then id_step_b (ob_cs o) (ob_eff o) (ob_cs o') (ob_eff o')
    else cstate_eqb (ob_cs o) (ob_cs o') && nlist_eqb (ob_eff o) (ob_eff o')) &&
-  implb (ca_must_keep a) (negb cach) &&
-  implb (negb cach) (pool_eqb (ob_pool o) (ob_pool o')) &&
+  (* the trust-store half is independent of the certificate half *)
+  Bool.eqb cach (negb (ca_must_keep a)) &&
+  pool_eqb (ob_pool o') (expected_pool (ob_pool o) a) &&
+  (* ... and the peers' verdicts are the documented consequence of those inputs: blocklisted => rejected as
+     blocklisted, issuer no longer an unexpired authority => rejected, otherwise still valid *)
+  peers_ok (expected_pool (ob_pool o) a) peers (ob_status o') &&
   obs_ok peers o'.
 
 Fixpoint spec_walk (peers : list (N * N)) (o : obs) (steps : list (cand * cacand * bool * bool * obs)) : bool :=
@@ -79,7 +88,8 @@ Fixpoint spec_walk (peers : list (N * N)) (o : obs) (steps : list (cand * cacand
 Definition check_case (c : case) : list N :=
   match c with
   | CSeq init ica started peers o0 steps =>
-      (if started then flag 2 (obs_ok peers o0 && spec_walk peers o0 steps) else flag 2 (match steps with [] => true | _ => false end)) ++
+      (if started then flag 2 (obs_ok peers o0 && negb (ca_must_keep ica) && pool_eqb (ob_pool o0) (pool_of ica) &&
+                               spec_walk peers o0 steps) else flag 2 (match steps with [] => true | _ => false end)) ++
       match start (init, ica) with
       | None => [3]
       | Some None => flag 1 (negb started)
